@@ -930,6 +930,29 @@ class Run:
     flat = flat_data(data)
     g = sut.coords.horizontal
     ambiguous = tuple(g.modal_shape) == tuple(g.nodal_shape)
+    # coordinate labels: every dimension that carries documented labels must carry
+    # exactly the supplied ones
+    lon_k, lat_k = g.modal_axes
+    lon, sin_lat = g.nodal_axes
+    want_labels = {'level': np.asarray(sut.coords.vertical.centers),
+                   'longitudinal_mode': np.asarray(lon_k),
+                   'total_wavenumber': np.asarray(lat_k),
+                   'lon': np.asarray(lon) * 180 / np.pi,
+                   'lat': np.arcsin(np.asarray(sin_lat)) * 180 / np.pi}
+    if times is not None:
+      want_labels['time'] = np.asarray(times)
+    if samples is not None:
+      want_labels['sample'] = np.asarray(samples)
+    for dim, want in want_labels.items():
+      if dim in ds.dims:
+        if dim not in ds.coords:
+          self.report('R-DIMS', f'{where}: dimension {dim!r} lost its coordinate labels',
+                      i, event='CHECKPOINT')
+        elif not np.array_equal(np.asarray(ds[dim].values, np.float64),
+                                np.asarray(want, np.float64)):
+          self.report('R-DIMS', f'{where}: coordinate labels of {dim!r} are '
+                      f'{np.asarray(ds[dim].values).tolist()[:6]}, supplied '
+                      f'{np.asarray(want).tolist()[:6]}', i, event='CHECKPOINT')
     for k, v in flat.items():
       if k not in ds:
         self.report('R-DURABLE', f'{where}: variable {k} missing from the dataset', i,
@@ -1134,6 +1157,12 @@ class Run:
       fr2 = jax.tree_util.tree_map(lambda a: jnp.stack([a, a * 2]), fr)
       ds2, data2, _ = self.write_dataset(fr2, None, times=times, samples=samples)
       self.check_dataset(i, ds2, data2, times, samples, 'sample/time chunk')
+      # sample axis without a time axis (an ensemble of states); non-trivial labels
+      st_last = jax.tree_util.tree_map(lambda a: a[-1], fr)
+      ens = jax.tree_util.tree_map(lambda a: jnp.stack([a, a * 2, a * 3]), st_last)
+      ids = np.array([7, 11, 13])
+      ds3, data3, _ = self.write_dataset(ens, None, times=None, samples=ids)
+      self.check_dataset(i, ds3, data3, None, ids, 'sample-only chunk')
     except Inconclusive:
       raise
     except Exception as e:  # pylint: disable=broad-except
